@@ -220,11 +220,7 @@ func (rn *Runner) Run(h *History) (res *Result) {
 		for i, mi := range pendingMuts {
 			res.Muts[mi].Batch = b
 			if i < len(obs.Events) {
-				e := obs.Events[i]
-				changed := e.Peek.Verdict
-				if e.Del && e.Peek.Persisted && !e.Peek.InStore {
-					changed = false
-				}
+				changed := obs.Events[i].Changed()
 				if changed {
 					res.Muts[mi].Disp = "relevant"
 				} else {
